@@ -11,7 +11,26 @@ import typing as T
 from . import common
 
 
+class ProgramTimeout(BaseException):
+    """the implementation did not finish one small program within the time limit"""
+
+
+def _on_alarm(signum: int, frame: T.Any) -> None:
+    raise ProgramTimeout()
+
+
 class Impl:
+    TIME_LIMIT = 5.0
+
+    def arm(self) -> None:
+        import signal
+        signal.signal(signal.SIGALRM, _on_alarm)
+        signal.setitimer(signal.ITIMER_REAL, self.TIME_LIMIT)
+
+    def disarm(self) -> None:
+        import signal
+        signal.setitimer(signal.ITIMER_REAL, 0)
+
     def __init__(self, base: T.Optional[str] = None) -> None:
         from mesonbuild import mparser, mlog, environment, build, msetup
         from mesonbuild.interpreter import Interpreter
@@ -68,9 +87,13 @@ class Impl:
         """-> (canonical answer, final variables or None)"""
         self.reset()
         try:
-            self.interp.evaluate_codeblock(ast)
+            self.arm()
+            try:
+                self.interp.evaluate_codeblock(ast)
+            finally:
+                self.disarm()
         except BaseException as e:  # Break/ContinueRequest derive from BaseException
-            if isinstance(e, (KeyboardInterrupt, SystemExit, MemoryError)):
+            if isinstance(e, (KeyboardInterrupt, SystemExit)):
                 raise
             ln = getattr(e, 'lineno', None)
             return f'ERR:{err_class(e)}:{ln if isinstance(ln, int) else 0}|{self.canon_msgs()}', None
